@@ -18,7 +18,7 @@ import (
 //	synack rst rstack                                                            TCP direct replies to a SYN
 //	sack1 sack2 sack3 sackTS plainack                                            duplicate ACKs to a SACK probe
 var ICMPErrForms4 = []string{"te28", "teFull", "teExt", "teOpts6", "teOpts15", "teQttl0", "teQttl64", "teQcsum", "teQtos"}
-var ICMPErrForms6 = []string{"teFull", "teQttl0", "teQttl64"}
+var ICMPErrForms6 = []string{"teFull", "teQttl0", "teQttl64", "teQ16"}
 var DUForms = []string{"duPort", "duHost", "duAdmin"}
 
 // BuildCtx carries what direct TCP replies need beyond the probe.
@@ -110,6 +110,12 @@ func Build(form string, p *refcodec.Packet, from netip.Addr, c BuildCtx) ([]byte
 		case form == "te28":
 			if p.V == 4 && len(q) > p.IHL+8 {
 				q = q[:p.IHL+8]
+			}
+		case form == "teQ16":
+			// a router that quotes only the IPv6 header and the first 16 bytes behind it (the quoted header's own length field
+			// still gives the original payload length)
+			if p.V == 6 && len(q) > 40+16 {
+				q = q[:40+16]
 			}
 		case form == "teExt":
 			// RFC 4884: original datagram padded to 128 bytes, then an extension structure with one MPLS label stack object
